@@ -367,22 +367,14 @@ func checkSet(t *rapid.T, rec *ev.Recorder, s Set, db, db2 *meta.DB, ep *stor.Ep
 				continue
 			}
 			var diff []string
-			tp, onlyTP := s.tombOnParentFamilies(), true
 			xp, onlyXP := s.expiredParentFamilies(), true
 			for i := range addrs {
 				if base[i] != v[i] {
 					diff = append(diff, fmt.Sprintf("%s: %v (order %v) vs %v (order %v)", fmtAddr(addrs[i]), base[i], perms[0], v[i], p))
-					if !tp[s.famOf(addrs[i])] {
-						onlyTP = false
-					}
 					if !xp[s.famOf(addrs[i])] {
 						onlyXP = false
 					}
 				}
-			}
-			if onlyTP && rec.Known(fpTombParent) {
-				rec.Label("known:" + fpTombParent)
-				return
 			}
 			if onlyXP && rec.Known(fpExpParent) {
 				rec.Label("known:" + fpExpParent)
@@ -500,7 +492,7 @@ func TestC18Resync(t *testing.T) {
 	defer rec.Flush()
 	rapid.Check(t, func(t *rapid.T) {
 		s := genSet(t, genCfg{allowLT: rapid.IntRange(0, 3).Draw(t, "lt-class") == 0, minN: 2, maxN: 8, cnrs: 2,
-			noTombOnParent: ev.IsOpen("C18", fpTombParent), noExpiredParent: ev.IsOpen("C18", fpExpParent)})
+			noExpiredParent: ev.IsOpen("C18", fpExpParent)})
 		rec.Excluded(int64(s.excluded))
 		n := len(s.Members)
 		if n < 2 {
@@ -555,7 +547,7 @@ func TestC18ShardGC(t *testing.T) {
 	defer rec.Flush()
 	rapid.Check(t, func(t *rapid.T) {
 		s := genSet(t, genCfg{minN: 2, maxN: 7, cnrs: 2,
-			noTombOnParent: ev.IsOpen("C18", fpTombParent), noExpiredParent: ev.IsOpen("C18", fpExpParent)})
+			noExpiredParent: ev.IsOpen("C18", fpExpParent)})
 		rec.Excluded(int64(s.excluded))
 		f := s.facts()
 		want := mustReclaim(s, f)
@@ -629,17 +621,12 @@ func gcAfterRebuild(t *rapid.T, rec *ev.Recorder, s Set, f facts, want []Member,
 		t.Fatalf("setup: reopen fstree: %v", err)
 	}
 	defer fst.Close()
-	tp := s.tombOnParentFamilies()
 	for _, m := range want {
 		ok, err := fst.Exists(m.addr())
 		if err != nil {
 			t.Fatalf("setup: fstree exists: %v", err)
 		}
 		if ok {
-			if tp[m.Fam] && rec.Known(fpTombParent) {
-				rec.Label("known:" + fpTombParent)
-				continue
-			}
 			t.Fatalf("%s (%s) is removed by a stored tombstone but its payload is still in the blob storage after rebuild (blob order %v) + 3 GC passes at epoch %d\n%s",
 				fmtAddr(m.addr()), m.Role, p, s.Eq, s.Short())
 		}
@@ -672,7 +659,7 @@ func TestC18BatchBoundary(t *testing.T) {
 	}
 	rapid.Check(t, func(t *rapid.T) {
 		s := genSet(t, genCfg{minN: 2, maxN: 4, cnrs: 1,
-			noTombOnParent: ev.IsOpen("C18", fpTombParent), noExpiredParent: ev.IsOpen("C18", fpExpParent)})
+			noExpiredParent: ev.IsOpen("C18", fpExpParent)})
 		rec.Excluded(int64(s.excluded))
 		n := len(s.Members)
 		if n < 2 {
@@ -720,17 +707,15 @@ func TestC18BatchBoundary(t *testing.T) {
 					continue
 				}
 				var diff []string
-				tp, onlyTP := s.tombOnParentFamilies(), true
 				xp, onlyXP := s.expiredParentFamilies(), true
 				for i := range addrs {
 					if base[i] != v[i] {
 						diff = append(diff, fmt.Sprintf("%s: %v (%s) vs %v (%s)", fmtAddr(addrs[i]), base[i], baseDesc, v[i], desc))
-						onlyTP = onlyTP && tp[s.famOf(addrs[i])]
 						onlyXP = onlyXP && xp[s.famOf(addrs[i])]
 					}
 				}
-				if onlyTP && rec.Known(fpTombParent) || onlyXP && rec.Known(fpExpParent) {
-					rec.Label("known-finding-hit")
+				if onlyXP && rec.Known(fpExpParent) {
+					rec.Label("known:" + fpExpParent)
 					return
 				}
 				t.Fatalf("statuses depend on the blob order / batch boundaries:\n  %s\n%s", strings.Join(diff, "\n  "), s.Short())
